@@ -151,6 +151,19 @@ PROPS = {
                      "DFSDclear/DFSDrestart, DFR8restart, DF24restart, DFPrestart, DFANclear before each single-file session (their static state is keyed by file NAME)",
                      "lossy coders (JPEG, IMCOMP) excluded by the property's own text"],
     ),
+    "C02": dict(
+        lean_props=["H4.Props.C02"],
+        engines=[
+            # cases 0..12: the 13 workloads (prep file and file after the session); 13: odd-ndds Hnumber regression probe; >= 14: random histories.
+            # model=None: the engine itself runs `h4model read` (env H4MODEL) on every file it closes and compares the dumps
+            E("fmt", "e_fmt.c", model=None, quick=dict(cases=214, chunk=8, timeout=1200), thorough=dict(cases=3014, seeds=4, chunk=40, timeout=3000)),
+        ],
+        trusted_base=["the independent reader lean/H4/Format.lean is written from the layout comments of hfile_priv.h, hblocks.c, hextelt.c, hcomp.c, hchunks.c, vio.c, vgp.c, vattr.c; where a comment and the code disagree (external element record, LBDR first-length note) the code was followed and the discrepancy is listed in REPORT.md",
+                      "compressed payloads: RLE by rleTake (proved equal to the C05 decoder H4.Rle.dec on every stream that decoder accepts), skipping Huffman by H4.SkpHuff.decompress and n-bit by H4.NBit.readBack (both proved against their encoders in C05), deflate by the reader's own inflate (lean/H4/Inflate.lean, RFC 1950/1951, not proved; the Adler-32 trailer of every stream is verified); szip/jpeg/imcomp payloads are read structurally only (digest '?')",
+                      "the library-side dump uses the library's own read path (Hfind, Hstartread/Hread, VSattach/Vattach structures); the comparison is therefore reader-vs-library, not reader-vs-ground-truth"],
+        assumptions=["files are those produced by the generators of engine fmt (13 workloads + random H/V/AN/GR/SD histories, ndds in {4,5,16}, cache on/off)",
+                     "external elements name their file by an absolute path"],
+    ),
     "C05": dict(
         lean_props=["H4.Props.C05", "H4.Props.C05Bits", "H4.Props.C05NBit", "H4.Props.C05Skp"],
         engines=[
